@@ -58,6 +58,12 @@ def cases(tier):
             if tier == "quick" and gs[1] == 3 and al.nedges(gs[2]) > 3:
                 continue
             yield {"kind": "ll", "gs": list(gs), "anchor": ai, "T": 2 if tier == "quick" else 3, "tier": tier, "metric": "latlon"}
+    # the planar metric at another magnitude: the same maps with coordinates (and all distance parameters) scaled by 2^-14
+    # (roads of length ~1e-4, e.g. degrees used as planar coordinates) and by 2^23 (projected metres); emitting-only, since
+    # the non-emitting search has absolute tolerances (known finding D11)
+    for k in (-14, 23):
+        for gs in ms.graph_slice("n3"):
+            yield {"kind": "scaled", "gs": list(gs), "k": k, "T": 2 if tier == "quick" else 3, "tier": tier, "metric": f"planar x 2^{k}"}
 
 
 def to_ll(anchor, p):
@@ -79,8 +85,52 @@ def judge(m, r, graph, trace, c, unique, ctx, latlon=False):
     return out
 
 
+SCALED_CFGS = [dict(fam=f, ne=False, avoid=True, width=None, **cg) for f in ms.FAMS
+               for cg in (dict(max_dist=1.5), dict(max_dist=2.5, max_dist_init=1.1, min_prob_norm=0.3), dict(min_prob_norm=0.6))]
+
+
+def run_scaled(case, res):
+    s = 2.0 ** case["k"]
+    pos = case["gs"][0]
+    g0 = ms.build_graph(tuple(case["gs"]))
+    graph = {k: ((v[0][0] * s, v[0][1] * s), list(v[1])) for k, v in g0.items()}
+    mp = maps.inmem(graph)
+    outs = set()
+    if "trace" in case:
+        traces = [[tuple(p) for p in case["trace"]]]
+        cfgs = [case["cfg"]]
+    else:
+        traces = [[(p[0] * s, p[1] * s) for p in t] for t in ps.trace_set(pos, case["T"], n_obs=4)]
+        cfgs = SCALED_CFGS
+    for trace in traces:
+        for c0 in cfgs:
+            c = dict(c0)
+            if "trace" not in case:
+                c["obs_noise"] = 1.0
+                for key in ("obs_noise", "max_dist", "max_dist_init"):
+                    if c.get(key) is not None:
+                        c[key] = c[key] * s
+            m = ms.make_matcher(mp, c)
+            try:
+                r = m.match(list(trace))
+            except Exception as exc:  # noqa
+                r = exc
+            res["n"] += 1
+            mini = {"kind": "scaled", "gs": case["gs"], "k": case["k"], "trace": trace, "cfg": c, "metric": case["metric"]}
+            verdicts = [(None, f"raised {r!r}")] if isinstance(r, Exception) else []
+            if not verdicts and isinstance(r, tuple) and len(r) == 2 and m.lattice_best:
+                verdicts = [("NT", "")]
+                viols, _ = replay(m, trace, ms.kind_of(c), unit=s)
+                verdicts += [(None, msg) for tag, msg in viols if tag in ("geom", "cut")]
+            ps._absorb(res, outs, verdicts, m, r, mini, f"planar x 2^{case['k']} {al.describe_graph(graph)} trace {trace} cfg {c}")
+    res["out"] = sorted(outs, key=repr)
+    return res
+
+
 def run_case(case):
     res = dict(n=0, st=0, tr=0, tv=0, nt=0, out=[], v=[], k=[])
+    if case.get("kind") == "scaled":
+        return run_scaled(case, res)
     if case.get("kind") != "ll":
         return ps.run(case, cfgs_for, judge, res)
     anchor = ANCHORS[case["anchor"]]
